@@ -67,6 +67,16 @@ pub fn cfg_for(prop: &'static str) -> FsxCfg {
             steps: (1, 40),
             ..base
         },
+        "C08" => FsxCfg {
+            profile: Profile {
+                open_volume: 6, close_volume: 6, open_root: 8, open_dir: 8, change_dir: 3, close_dir: 8, open: 14, close: 10,
+                stale: 9, reenter: 6, has_open: 6, write: 3, read: 2, mkdir: 2, delete: 2, label: 2, flush: 1, seek: 1, query: 1,
+                check_all: 1, remount: 1, find: 1, list: 1, invalid_names: 0, modes: [3, 2, 1, 2, 1, 3], weird_seeks: false,
+            },
+            steps: (1, 60),
+            all_cfgs: true,
+            ..base
+        },
         "C06" => FsxCfg {
             profile: Profile { list: 14, find: 12, open_dir: 10, change_dir: 3, close_dir: 5, delete: 8, mkdir: 8, open: 12, close: 8, write: 6, read: 2, seek: 1, check_all: 0, ..Profile::mixed() },
             steps: (1, 45),
@@ -385,7 +395,12 @@ pub fn geometry_class(case: &Case) -> Vec<String> {
 }
 
 fn first_relevant<'a>(divs: &'a [Divergence], prop: &str) -> Option<&'a Divergence> {
-    divs.iter().find(|d| d.prop == prop || d.prop == "ANY")
+    divs.iter().find(|d| {
+        d.prop == prop
+            || d.prop == "ANY"
+            // for the handle property every unexpected handle/limit/lock error on a live handle counts
+            || (prop == "C08" && (d.detail.contains("BadHandle") || d.detail.contains("LockError") || d.detail.contains("TooManyOpen") || d.detail.contains("VolumeStillInUse") || d.detail.contains("VolumeAlreadyOpen")))
+    })
 }
 
 pub fn abbreviate(case: &Case) -> serde_json::Value {
@@ -407,6 +422,7 @@ pub fn run_case(cfg: &FsxCfg, case: &Case, acc: &mut Acc, known: &[KnownFinding]
         ..Opts::default()
     };
     let mut it = Interp::new(case, opts);
+    it.tolerate = known.iter().filter(|k| k.status == "open" && k.property == prop).map(|k| k.signature.clone()).collect();
     let mut ctx = Ctx {
         cfg,
         initial: it.disk.snapshot(),
@@ -525,6 +541,9 @@ pub fn run_case(cfg: &FsxCfg, case: &Case, acc: &mut Acc, known: &[KnownFinding]
             nt_flags.fsinfo_checked = true;
         }
     }
+    for k in &it.known_hits {
+        acc.known(k);
+    }
     acc.ops += it.stats.ops;
     acc.skipped_ops += it.stats.skipped;
     if let Err(f) = &result {
@@ -590,6 +609,8 @@ pub struct NtFlags {
     freed_any: bool,
     pub partial_block_write: bool,
     pub low_space_alloc: bool,
+    pub special_calls: u32,
+    pub limit_reached: bool,
 }
 
 impl NtFlags {
@@ -626,6 +647,15 @@ impl NtFlags {
         if info.refused {
             self.refused_calls += 1;
         }
+        if info.kind.starts_with("Stale") || info.kind == "Reenter" {
+            self.special_calls += 1;
+            self.cells.insert(info.kind.to_string());
+        }
+        if let Some(e) = &info.err {
+            if e.starts_with("TooManyOpen") {
+                self.limit_reached = true;
+            }
+        }
         if let (Some(m), Some(sc)) = (info.mode, info.state_class) {
             self.cells.insert(format!("open:mode{}:{}", m, sc));
         }
@@ -657,6 +687,7 @@ fn nontrivial(prop: &str, it: &Interp, f: &NtFlags) -> bool {
         "C05" => f.alloc_after_free || f.reached_full,
         "C16" => f.fsinfo_checked || (f.alloc_after_free),
         "C07" => f.refused_calls > 0,
+        "C08" => f.special_calls > 0 || f.limit_reached,
         _ => true,
     }
 }
@@ -760,6 +791,7 @@ pub fn quick_cases(prop: &str, tier: Tier) -> u64 {
         "C05" => tier.pick(8_000, 300_000),
         "C16" => tier.pick(15_000, 600_000),
         "C07" => tier.pick(20_000, 800_000),
+        "C08" => tier.pick(20_000, 800_000),
         _ => tier.pick(2000, 50_000),
     }
 }
@@ -773,6 +805,7 @@ pub fn rule_for(prop: &str) -> &'static str {
         "C05" => "generated create/extend/truncate/delete/mkdir histories on tight volumes; FAT in-use set vs reachable chains whenever no file is open; out-of-space errors checked against a FAT scan taken before the call; non-trivial = allocation after a free or a space error reached; distinct by (geometry, op-kind sequence, flags)",
         "C16" => "generated FAT32 histories with correct/unknown/stale FSInfo; FAT copies compared after every call, FSInfo delta vs FAT-scan delta after every dirty flush / volume close; non-trivial = FSInfo checked after an allocation following a free; distinct by (geometry, op-kind sequence, flags)",
         "C06" => "see run_c06",
+        "C08" => "generated open/close histories over 12 (dirs,files,volumes) limit configurations with id offsets near u32::MAX; every method taking a handle is called with a closed handle (all methods per Stale op), and every public Result-returning method is called re-entrantly from iterate_dir / iterate_dir_lfn callbacks (all 23 per Reenter op); non-trivial = a stale or re-entrant op ran or a limit was reached; distinct by (geometry, op-kind sequence, flags)",
         "C07" => "generated histories biased to opens/deletes/mkdirs with valid and invalid names; decision table from the Mode/Error docs; refused calls must leave the medium unchanged; non-trivial = at least one refused call; distinct by (geometry, op-kind sequence, set of (mode,state) cells hit)",
         _ => "generated histories",
     }
